@@ -290,6 +290,27 @@ def resource_catalogue():
 # One pinned minimal input per crash signature found so far (see docs/notes_C19_C16.md).  Each reaches its
 # signature deterministically, so a known-findings entry is observed at every seed.
 PINNED = [
+    "typeof 5\n",                                              # declaration.rs  unreachable!("typeof is not supported")
+    "x: [int, str...] = 1\n",                                  # type.rs         unreachable!(open_ended_type) in list_type
+    "(a.b).c = 1\n",                                           # reassignment.rs unimplemented!("Cannot parse a path from …")
+    "x = [][0]\n",                                             # list.rs         `types.len() - 1` on the empty list type
+    "f = fn() { import ..ms }\n",                              # import.rs       .expect("not a file") (path `.` + `.ms`)
+    'result = "Fizz"\nresult or ""\n',                         # math_expr.rs    assert_eq! in Expr::for_type (NilEval)
+    "class A { fn c(self: int) { } }\n",                       # ident.rs        debug_assert_eq!(rule, ident): typed `self`
+    # (repaired in the tree by "fix: a byte literal with more than 8 binary digits is a diagnostic…": the inputs
+    #  `0b111111111` / 40 bits stay in the resource shapes as a regression guard)
+    "x = [1]\ny = x[1.5]\n",                                   # number.rs       unreachable!("not sure how to round …")
+    "if false { - false }\n",                                  # function_body.rs Block::compile  x.compile(state).unwrap()
+    "f = fn(a: bool) -> bool { return a }\nf(- false)\n",      # callable.rs     Callable::compile x.compile(state).unwrap()
+    "x = map[float, float] { 3.1415: typeof }\n",              # map.rs          for_type(..).unwrap() on a typeless identifier
+    "a = 5\nif true { a = typeof }\n",                         # assignment.rs   for_type(..).unwrap() on a typeless identifier
+    # class/constructor.rs: a constructor with a return type hands the type node to Parser::block; the message
+    # names the (unmaskable) rule of the type, so each spelling is its own signature
+    "class A { constructor(self) -> int { } }\n",              # declaration.rs  unreachable!("ident is not supported")
+    "class A { constructor(self) -> fn() { } }\n",             #                 function_type
+    "class A { constructor(self) -> [int...] { } }\n",         #                 list_type_open_only
+    "class A { constructor(self) -> [int, str] { } }\n",       #                 list_type
+    "class A { constructor(self) -> map[int, int] { } }\n",    #                 user_map_type
 ]
 
 
@@ -381,7 +402,7 @@ def work(item):
     rng = random.Random(seed)
     cover = set()
     res = {"runs": 0, "cls": {}, "origin": {}, "edits": {}, "fail_diag": 0, "failures": {}, "inconclusive": [],
-           "cover": None, "distinct": set(), "bytes": 0, "slow": [], "samples": []}
+           "cover": None, "distinct": set(), "bytes": 0, "slow": [], "samples": [], "pins": {}}
     cases = []
     if kind == "cat":
         cat = resource_catalogue() + pinned_catalogue()
@@ -442,6 +463,8 @@ def work(item):
         if len(res["samples"]) < 1 and origin != "catalogue" and 40 < len(et) < 400 and r.cls in ("ok", "fail"):
             res["samples"].append({"id": cid, "origin": origin, "source": et, "exit_class": r.cls,
                                    "diagnostic_tail": (r.out + r.err).strip()[-160:]})
+        if cid.startswith("pin:"):
+            res["pins"][cid] = None if c is None else "%s: %s @ %s" % c
         if c is None:
             continue
         key = "%s|%s|%s" % c
@@ -462,7 +485,11 @@ _FRAME = re.compile(r"^\s*\d+:\s+(<?(?:compiler|bytecode|mscript)::.*)$", re.M)
 
 def first_repo_frame(files, entry):
     r = compile_case(files, entry, cpu=60, env={"RUST_BACKTRACE": "1"})
-    m = _FRAME.search(r.err + "\n" + r.out)
+    text = r.err + "\n" + r.out
+    # the panic's own backtrace follows the last "stack backtrace:" line; an anyhow error printed inside the
+    # panic message carries another one ("Stack backtrace:", capitalised) that must not be used
+    cut = text.rfind("\nstack backtrace:")
+    m = _FRAME.search(text[cut:] if cut >= 0 else text)
     if not m:
         return "?"
     sym = m.group(1).strip()
@@ -626,6 +653,13 @@ def shrink(item):
             "shrink_runs": runs - max(0, budget.left)}
 
 
+def stable_run(brief):
+    """Run summary without what changes from run to run (pid in the panic header, CPU time): the replay
+    directory of a signature is then the same at every run."""
+    return {"argv": brief["argv"][1:], "rc": brief["rc"], "cls": brief["cls"], "out": brief["out"],
+            "err": re.sub(r"thread '([^']*)' \(\d+\)", r"thread '\1' (<pid>)", brief["err"])}
+
+
 def signature(kind, msg, frame_or_loc):
     return "C16:%s:%s@%s" % (kind, msg, frame_or_loc)
 
@@ -662,6 +696,7 @@ def run(ctx):
     slow = []
     fail_diag = 0
     nbytes = 0
+    pins = {}
     for item, (status, res) in zip(items, results):
         if status != "ok":
             out.inconclusive.append("%s: %s" % (item[:2], str(res)[-400:]))
@@ -671,6 +706,7 @@ def run(ctx):
         out.distinct.update(res["distinct"])
         cover.update(tuple(c) for c in res["cover"])
         fail_diag += res["fail_diag"]
+        pins.update(res["pins"])
         nbytes += res["bytes"]
         slow.extend(res["slow"])
         for src, dst in ((res["cls"], cls_tot), (res["origin"], origin_tot), (res["edits"], edits_tot)):
@@ -730,7 +766,7 @@ def run(ctx):
         out.violations.append(core.Violation(sig, what, {
             "files": s["files"], "entry": s["entry"], "kind": s["want"][0], "message": s["want"][1],
             "panic_location": loc, "first_repo_frame": s["frame"], "found_by": s["origin"], "found_in": s["id"],
-            "command": "mscript compile %s --quick" % s["entry"], "run": s["run"]}))
+            "command": "mscript compile %s --quick" % s["entry"], "run": stable_run(s["run"])}))
 
     rules_cov = sorted(c[1] for c in cover if c[0] == "rule")
     alts_cov = {c[1:] for c in cover if c[0] == "alt"}
@@ -748,6 +784,9 @@ def run(ctx):
         "exit_classes": cls_tot, "inputs_by_origin": origin_tot, "token_edits_applied": edits_tot,
         "failed_with_diagnostic": fail_diag, "mean_input_bytes": round(nbytes / max(1, out.evaluations), 1),
         "catalogue_shapes": len(resource_catalogue()), "pinned_crashers": len(pinned_catalogue()),
+        "pinned_crashers_still_crashing": sum(1 for v in pins.values() if v),
+        "pinned_inputs_that_no_longer_crash(repaired?)": sorted(
+            "%s %r" % (k, PINNED[int(k.split(":")[1])][:60]) for k, v in pins.items() if not v),
         "corpus_programs": len(corpus_programs()),
         "crash_raw_keys(kind|message|location)": len(todo), "crash_signatures": sorted(by_sig),
         "slow_inputs(cpu>=2s)": slow[:20], "cpu>=20s_but_finished_within_120s": slow_alone,
